@@ -80,7 +80,7 @@ AlphaStructB ==
   AlphaStructA \o << EvPad, EvCmt, [EvCmt EXCEPT !.pok = FALSE], EvRT("b"), EvRec("b"), EvVer(1),
                      EvABegin("string"), EvChunk(1, FALSE), EvData(<<98>>),
                      (* arrays that are no keys, begun where a key is due *)
-                     EvABegin("au8"), EvMBegin >>
+                     EvABegin("au8"), [EvMBegin EXCEPT !.mt = "a/b"] >>
 
 (* C13: markers and references *)
 AlphaMarker ==
